@@ -483,6 +483,72 @@ var (
 	c07Missed []string
 )
 
+// Bundles of many templates (more than any batch or table is likely to hold), with one rule broken in a template near
+// the end, in the middle, or at a boundary: every template is checked, however many there are.
+var c07BigSizes = []int{63, 64, 65, 100, 127, 128, 129, 200, 257, 600}
+var c07BigFaults = []string{"none", "undeclared-name", "unused-param", "unused-let", "unknown-callee", "undeclared-call-param", "missing-required-param", "loop-function-on-param", "use-after-block"}
+
+func c07BigBundle(ctx *fw.Ctx, k int) fw.Result {
+	n := c07BigSizes[k%len(c07BigSizes)]
+	fault := c07BigFaults[(k/len(c07BigSizes))%len(c07BigFaults)]
+	where := []int{n - 1, n - 1, n - 2, n / 2, 64 % n, 0}[ctx.Rng.Intn(6)] // the template that breaks the rule
+	nfiles := 1 + ctx.Rng.Intn(3)
+	var srcs []strings.Builder = make([]strings.Builder, nfiles)
+	for f := range srcs {
+		fmt.Fprintf(&srcs[f], "{namespace big.f%d}\n", f)
+	}
+	name := func(t int) string { return fmt.Sprintf("big.f%d.t%d", t%nfiles, t) }
+	for t := 0; t < n; t++ {
+		w := &srcs[t%nfiles]
+		decl, body := " * @param p\n * @param? o\n", "{$p}{$o ?: ''}{let $v: $p /}{if $p}{$v}{/if}"
+		if t+1 < n {
+			body += "{call " + name(t+1) + "}{param p: $p /}{/call}"
+		}
+		if t == where {
+			switch fault {
+			case "undeclared-name":
+				body += "{$nowhere}"
+			case "unused-param":
+				decl += " * @param never\n"
+			case "unused-let":
+				body += "{let $idle: 1 /}"
+			case "unknown-callee":
+				body += "{call big.f0.nosuch /}"
+			case "undeclared-call-param":
+				body += "{call " + name(0) + "}{param p: 1 /}{param extra: 2 /}{/call}"
+			case "missing-required-param":
+				body += "{call " + name(0) + " /}"
+			case "loop-function-on-param":
+				body += "{isLast($p) ? 1 : 0}"
+			case "use-after-block":
+				body += "{if $p}{let $inner: 1 /}{$inner}{/if}{$inner}"
+			}
+		}
+		fmt.Fprintf(w, "/**\n%s */\n{template .t%d}\n%s\n{/template}\n", decl, t, body)
+	}
+	var files []srcFile
+	for f := range srcs {
+		files = append(files, srcFile{fmt.Sprintf("big%d.soy", f), srcs[f].String()})
+	}
+	ctx.Cell("big-bundle")
+	ctx.Eval(fmt.Sprintf("big:%d:%s:%d:%d", n, fault, where, nfiles))
+	_, err := compile(files, nil)
+	if fault == "none" {
+		ctx.Obs("valid_bundles", 1)
+		if err != nil {
+			return fw.Result{Verdict: fw.Violated, Key: "rejects-valid:big-bundle", Case: fmt.Sprintf("%d templates in %d files", n, nfiles),
+				Msg: fmt.Sprintf("a bundle of %d small valid templates is rejected: %v", n, errText(err))}
+		}
+		return fw.Result{Verdict: fw.Held}
+	}
+	ctx.Obs("injections", 1)
+	if err == nil {
+		return fw.Result{Verdict: fw.Violated, Key: "accepts-invalid:" + fault + ":big-bundle", Case: map[string]interface{}{"templates": n, "files": nfiles, "fault": fault, "in_template": where, "source_of_that_file": fw.Trim(files[where%nfiles].Text, 3000)},
+			Msg: fmt.Sprintf("a bundle of %d templates in %d files compiles although template %d breaks a rule (%s)", n, nfiles, where, fault)}
+	}
+	return fw.Result{Verdict: fw.Held}
+}
+
 func init() {
 	fw.Register(&fw.Prop{
 		ID:    "C07",
@@ -494,9 +560,9 @@ func init() {
 			"distinct = distinct (sources after injection); non-trivial = an injected bundle the reference rules reject, or a valid bundle with a call or a let",
 		N: func(tier string) int {
 			if tier == "thorough" {
-				return 80000
+				return 80000 + len(c07BigSizes)*len(c07BigFaults)*4
 			}
-			return 4000
+			return 4000 + len(c07BigSizes)*len(c07BigFaults)
 		},
 		Setup: func(tier string, seed uint64, config string) string {
 			soyhtml.VerifUnbound = func(k string) {
@@ -507,6 +573,9 @@ func init() {
 			return ""
 		},
 		Run: func(ctx *fw.Ctx, i int) fw.Result {
+			if base := map[string]int{"thorough": 80000}[ctx.Tier] + map[string]int{"quick": 4000}[ctx.Tier]; i >= base {
+				return c07BigBundle(ctx, i-base)
+			}
 			seed := ctx.Rng.U64()
 			mk := func() *gen.Program {
 				r := fw.NewRand(seed)
